@@ -11,6 +11,7 @@ import (
 	"errors"
 	"fmt"
 	"io"
+	"path/filepath"
 	"runtime"
 	"strconv"
 	"strings"
@@ -171,6 +172,70 @@ func Build(prog []Op, rs *RenderState) ([]Item, error) {
 		}
 	}
 	return items, nil
+}
+
+// BuildStatic builds stateless items for components that are shared between goroutines (C14):
+// nothing in them is written after construction. Ops "EF" / "leafF" always fail.
+func BuildStatic(prog []Op) ([]Item, error) {
+	items := make([]Item, 0, len(prog))
+	for _, o := range prog {
+		switch o.K {
+		case "EF":
+			items = append(items, Item{Kind: KExpr, Fn: func() (string, error) { return "", ErrExpr }})
+		case "leafF":
+			items = append(items, Item{Kind: KCall, C: templ.ComponentFunc(func(ctx context.Context, w io.Writer) error { return ErrComp })})
+		case "E":
+			text, ok := exprTexts[o.N]
+			if !ok {
+				return nil, fmt.Errorf("no expression text of %d bytes", o.N)
+			}
+			kind := KExpr
+			if o.N >= 4 {
+				kind = KExprML
+			}
+			items = append(items, Item{Kind: kind, Fn: func() (string, error) { return text, nil }})
+		case "leaf":
+			text := []byte(leafText[:o.N])
+			items = append(items, Item{Kind: KCall, C: templ.ComponentFunc(func(ctx context.Context, w io.Writer) error {
+				_, err := w.Write(text)
+				return err
+			})})
+		case "L", "slot":
+			one, err := Build([]Op{o}, nil)
+			if err != nil {
+				return nil, err
+			}
+			items = append(items, one...)
+		case "call", "flush", "cb", "join":
+			a, err := BuildStatic(o.A)
+			if err != nil {
+				return nil, err
+			}
+			b, err := BuildStatic(o.B)
+			if err != nil {
+				return nil, err
+			}
+			switch o.K {
+			case "call":
+				items = append(items, Item{Kind: KCall, C: Interp(a)})
+			case "flush":
+				items = append(items, Item{Kind: KFlush, Body: Interp(a)})
+			case "cb":
+				items = append(items, Item{Kind: KCallBlock, C: Interp(a), Body: Interp(b)})
+			case "join":
+				items = append(items, Item{Kind: KJoin, C: Interp(a), Body: Interp(b)})
+			}
+		default:
+			return nil, fmt.Errorf("unknown op %q", o.K)
+		}
+	}
+	return items, nil
+}
+
+// GeneratedFile is the path of the generated Go file of interp.templ (for the development-mode text file).
+func GeneratedFile() string {
+	_, file, _, _ := runtime.Caller(0)
+	return filepath.Join(filepath.Dir(file), "interp_templ.go")
 }
 
 // Classify maps an error returned by Render to the specification's error names.
